@@ -3,5 +3,5 @@
 From Coq Require Import ZArith ExtrOcamlBasic.
 Require Import ZV.Model.RefSemLazy.
 Extraction "model.ml" Z.add Z.mul Z.opp Z.div_eucl Z.of_nat Z.to_nat Z.compare
-  eval_program_cfg eval_program prim_ident all_prims cc
+  eval_program_cfg eval_program call_by_symbol force_n strict_cc prim_ident all_prims cc
   kw_begin kw_cond kw_and kw_or kw_def kw_set kw_quote kw_nil.
